@@ -2,20 +2,30 @@ package main
 
 // C11 — FromJSONSchema yields a schema equivalent to the JSON Schema it was given.
 //
-//	c11 inst <J0> <J>   impl: "<P> <V> <R>"
-//	    P = verdict of gozod.FromJSONSchema(doc).ParseAny(x), x decoded from JSON text by encoding/json
-//	    V = independent validator (kaptinlin/jsonschema) on the ORIGINAL document
-//	    R = independent validator on ToJSONSchema(FromJSONSchema(doc))   (round trip)
+//	c11 kw <keyword>     impl: "<documented> <strictRejects>"   behavioural: {kw: sample} through FromJSONSchema(StrictMode)
+//	c11 conv <D>         impl: "<nonstrict> <strict>"            conversion outcome ok|error|panic without / with StrictMode
+//	c11 inst <D> <J>     impl: "<P> <V> <R>"
+//	    P = verdict of FromJSONSchema(doc).ParseAny(x), x decoded from JSON text by encoding/json (0 also for a panic)
+//	    V = independent validator (kaptinlin/jsonschema, format assertion on) on the ORIGINAL document
+//	    R = independent validator on ToJSONSchema(FromJSONSchema(doc)) (round trip; "-" when that conversion fails)
 //	    The property on the implementation alone: P = V and R = V.
-//	c11 kw <keyword>    impl: "<documented> <strictRejects>"  (behavioural: {kw: sample} with StrictMode)
 //
-//	J0 ::= ( str MN MX ) | ( num MN MX ) | ( int MN MX ) | bool | null | any | ( arr J0 MN MX ) | ( anyOf J0 J0 ) | ( oneOf J0 J0 )
-//	MN, MX ::= - | integer (quarters for num)
+//	D  ::= true | false | ( node KW* )
+//	KW ::= ( type T ) | ( types T* ) | ( minLength N ) | ( maxLength N ) | ( pattern PAT ) | ( minimum Q ) | ( maximum Q )
+//	     | ( exclusiveMinimum Q ) | ( exclusiveMaximum Q ) | ( multipleOf Q ) | ( enum P* ) | ( const P )
+//	     | ( items D ) | ( prefixItems D* ) | ( minItems N ) | ( maxItems N ) | ( properties ( STR D )* ) | ( required STR* )
+//	     | ( additionalProperties D ) | ( anyOf D* ) | ( oneOf D* ) | ( allOf D* ) | ( not D ) | ( format STR GOOD* )
+//	     | ( ref D ) | ( other STR )
+//	PAT ::= ( pre STR ) | ( suf STR ) | ( has STR ) | noUp | noLow       Q in quarters, P ::= n | t | f | qZ | s:…
+//	`( ref D )` is written into the document as {"$ref":"#/$defs/dK"} with D hoisted into the root's $defs.
+//	`( format NAME GOOD* )`: GOOD = the strings of this case's instance universe that satisfy the format
+//	(format sample pool, checked at start-up against gozod's dedicated schema and the validator).
 
 import (
 	"encoding/json"
 	"fmt"
 	"os"
+	"regexp"
 	"strconv"
 	"strings"
 
@@ -26,225 +36,740 @@ import (
 	"verifharness/hx"
 )
 
-type J0 struct {
-	K      string
-	Mn, Mx *int64
-	A, B   *J0
+type Prop struct {
+	K string
+	D *D
 }
 
-func o(p *int64) string {
-	if p == nil {
-		return "-"
-	}
-	return strconv.FormatInt(*p, 10)
+type KW struct {
+	Name  string
+	N     int64
+	Pat   [2]string // kind, literal
+	Prims []*J
+	Sub   *D
+	Subs  []*D
+	Props []Prop
+	Strs  []string
 }
 
-func (j *J0) String() string {
-	switch j.K {
-	case "bool", "null", "any":
-		return j.K
-	case "str", "num", "int":
-		return "( " + j.K + " " + o(j.Mn) + " " + o(j.Mx) + " )"
-	case "arr":
-		return "( arr " + j.A.String() + " " + o(j.Mn) + " " + o(j.Mx) + " )"
-	}
-	return "( " + j.K + " " + j.A.String() + " " + j.B.String() + " )"
+type D struct {
+	Bool *bool
+	Kws  []KW
 }
 
-func qText(q int64) string {
-	neg := q < 0
-	a := q
-	if neg {
-		a = -q
+func (d *D) get(name string) *KW {
+	if d.Bool != nil {
+		return nil
 	}
-	s := strconv.FormatInt(a/4, 10) + []string{"", ".25", ".5", ".75"}[a%4]
-	if neg {
-		s = "-" + s
+	for i := range d.Kws {
+		if d.Kws[i].Name == name {
+			return &d.Kws[i]
+		}
 	}
-	return s
+	return nil
 }
 
-func (j *J0) Doc() string {
+// ---------------------------------------------------------------- op text
+
+func (d *D) String() string {
+	if d.Bool != nil {
+		if *d.Bool {
+			return "true"
+		}
+		return "false"
+	}
+	var b strings.Builder
+	b.WriteString("( node")
+	for _, k := range d.Kws {
+		b.WriteString(" " + k.String())
+	}
+	return b.String() + " )"
+}
+
+func (k KW) String() string {
+	switch k.Name {
+	case "type":
+		return "( type " + k.Strs[0] + " )"
+	case "types":
+		return "( types " + strings.Join(k.Strs, " ") + " )"
+	case "minLength", "maxLength", "minItems", "maxItems", "minimum", "maximum", "exclusiveMinimum", "exclusiveMaximum", "multipleOf":
+		return fmt.Sprintf("( %s %d )", k.Name, k.N)
+	case "pattern":
+		if k.Pat[0] == "noUp" || k.Pat[0] == "noLow" {
+			return "( pattern " + k.Pat[0] + " )"
+		}
+		return "( pattern ( " + k.Pat[0] + " " + encStr(k.Pat[1]) + " ) )"
+	case "enum", "const":
+		var ps []string
+		for _, p := range k.Prims {
+			ps = append(ps, p.String())
+		}
+		return "( " + k.Name + " " + strings.Join(ps, " ") + " )"
+	case "items", "additionalProperties", "not", "ref":
+		return "( " + k.Name + " " + k.Sub.String() + " )"
+	case "prefixItems", "anyOf", "oneOf", "allOf":
+		var ps []string
+		for _, s := range k.Subs {
+			ps = append(ps, s.String())
+		}
+		if len(ps) == 0 {
+			return "( " + k.Name + " )"
+		}
+		return "( " + k.Name + " " + strings.Join(ps, " ") + " )"
+	case "properties":
+		var ps []string
+		for _, p := range k.Props {
+			ps = append(ps, "( "+encStr(p.K)+" "+p.D.String()+" )")
+		}
+		if len(ps) == 0 {
+			return "( properties )"
+		}
+		return "( properties " + strings.Join(ps, " ") + " )"
+	case "required":
+		var ps []string
+		for _, s := range k.Strs {
+			ps = append(ps, encStr(s))
+		}
+		if len(ps) == 0 {
+			return "( required )"
+		}
+		return "( required " + strings.Join(ps, " ") + " )"
+	case "format":
+		ps := []string{encStr(k.Strs[0])}
+		for _, g := range k.Strs[1:] {
+			ps = append(ps, encStr(g))
+		}
+		return "( format " + strings.Join(ps, " ") + " )"
+	case "other":
+		return "( other " + encStr(k.Strs[0]) + " )"
+	}
+	panic("KW.String " + k.Name)
+}
+
+// ---------------------------------------------------------------- JSON document
+
+func patRegex(p [2]string) string {
+	switch p[0] {
+	case "pre":
+		return "^" + regexp.QuoteMeta(p[1]) + ".*"
+	case "suf":
+		return ".*" + regexp.QuoteMeta(p[1]) + "$"
+	case "has":
+		return regexp.QuoteMeta(p[1])
+	case "noUp":
+		return "^[^A-Z]*$"
+	}
+	return "^[^a-z]*$"
+}
+
+func jstr(s string) string { b, _ := json.Marshal(s); return string(b) }
+
+// keywords outside the model, written with VACUOUS values (every instance satisfies them), so that they exercise
+// strict mode and the dispatch without needing their semantics in the model.
+var otherSamples = map[string]string{"uniqueItems": "false", "minProperties": "0", "maxProperties": "9999",
+	"propertyNames": "{}", "dependentRequired": "{}", "if": "{}", "unevaluatedProperties": "true", "not": "false",
+	"dependentSchemas": "{}", "minContains": "0"}
+
+var otherNames = []string{"uniqueItems", "minProperties", "maxProperties", "propertyNames", "dependentRequired", "if",
+	"unevaluatedProperties", "not"}
+
+type docCtx struct{ defs []string }
+
+func (d *D) json(c *docCtx) string {
+	if d.Bool != nil {
+		if *d.Bool {
+			return "true"
+		}
+		return "false"
+	}
 	var kv []string
-	add := func(k, v string) { kv = append(kv, `"`+k+`":`+v) }
-	switch j.K {
-	case "bool":
-		add("type", `"boolean"`)
-	case "null":
-		add("type", `"null"`)
-	case "any":
-	case "str":
-		add("type", `"string"`)
-		if j.Mn != nil {
-			add("minLength", o(j.Mn))
+	add := func(k, v string) { kv = append(kv, jstr(k)+":"+v) }
+	list := func(ds []*D) string {
+		ps := make([]string, len(ds))
+		for i, s := range ds {
+			ps[i] = s.json(c)
 		}
-		if j.Mx != nil {
-			add("maxLength", o(j.Mx))
+		return "[" + strings.Join(ps, ",") + "]"
+	}
+	for _, k := range d.Kws {
+		switch k.Name {
+		case "type":
+			add("type", jstr(k.Strs[0]))
+		case "types":
+			ps := make([]string, len(k.Strs))
+			for i, s := range k.Strs {
+				ps[i] = jstr(s)
+			}
+			add("type", "["+strings.Join(ps, ",")+"]")
+		case "minLength", "maxLength", "minItems", "maxItems":
+			add(k.Name, strconv.FormatInt(k.N, 10))
+		case "minimum", "maximum", "exclusiveMinimum", "exclusiveMaximum", "multipleOf":
+			add(k.Name, qText(k.N))
+		case "pattern":
+			add("pattern", jstr(patRegex(k.Pat)))
+		case "const":
+			add("const", k.Prims[0].JSON())
+		case "enum":
+			ps := make([]string, len(k.Prims))
+			for i, p := range k.Prims {
+				ps[i] = p.JSON()
+			}
+			add("enum", "["+strings.Join(ps, ",")+"]")
+		case "items", "additionalProperties", "not":
+			add(k.Name, k.Sub.json(c))
+		case "ref":
+			body := k.Sub.json(c)
+			name := "d" + strconv.Itoa(len(c.defs))
+			c.defs = append(c.defs, jstr(name)+":"+body)
+			add("$ref", jstr("#/$defs/"+name))
+		case "prefixItems", "anyOf", "oneOf", "allOf":
+			add(k.Name, list(k.Subs))
+		case "properties":
+			ps := make([]string, len(k.Props))
+			for i, p := range k.Props {
+				ps[i] = jstr(p.K) + ":" + p.D.json(c)
+			}
+			add("properties", "{"+strings.Join(ps, ",")+"}")
+		case "required":
+			ps := make([]string, len(k.Strs))
+			for i, s := range k.Strs {
+				ps[i] = jstr(s)
+			}
+			add("required", "["+strings.Join(ps, ",")+"]")
+		case "format":
+			add("format", jstr(k.Strs[0]))
+		case "other":
+			add(k.Strs[0], otherSamples[k.Strs[0]])
 		}
-	case "num":
-		add("type", `"number"`)
-		if j.Mn != nil {
-			add("minimum", qText(*j.Mn))
-		}
-		if j.Mx != nil {
-			add("maximum", qText(*j.Mx))
-		}
-	case "int":
-		add("type", `"integer"`)
-		if j.Mn != nil {
-			add("minimum", o(j.Mn))
-		}
-		if j.Mx != nil {
-			add("maximum", o(j.Mx))
-		}
-	case "arr":
-		add("type", `"array"`)
-		add("items", j.A.Doc())
-		if j.Mn != nil {
-			add("minItems", o(j.Mn))
-		}
-		if j.Mx != nil {
-			add("maxItems", o(j.Mx))
-		}
-	default:
-		add(j.K, "["+j.A.Doc()+","+j.B.Doc()+"]")
 	}
 	return "{" + strings.Join(kv, ",") + "}"
 }
 
-type gen struct{ r *hx.Rng }
+func (d *D) Doc() string {
+	c := &docCtx{}
+	body := d.json(c)
+	if len(c.defs) == 0 || d.Bool != nil {
+		return body
+	}
+	defs := `"$defs":{` + strings.Join(c.defs, ",") + "}"
+	if body == "{}" {
+		return "{" + defs + "}"
+	}
+	return "{" + defs + "," + body[1:]
+}
 
-func (g *gen) opt(lo, n int) *int64 {
-	if g.r.Chance(40) {
+// ---------------------------------------------------------------- format sample pool
+
+var formatPool = map[string][2][]string{
+	"email":     {{"a@b.co", "first.last@example.org"}, {"a@", "not an email"}},
+	"uuid":      {{"123e4567-e89b-42d3-a456-426614174000"}, {"123e4567", "zzze4567-e89b-42d3-a456-426614174000"}},
+	"ipv4":      {{"1.2.3.4", "192.168.0.1"}, {"1.2.3", "256.1.1.1"}},
+	"ipv6":      {{"::1", "2001:db8::8a2e:370:7334"}, {"1.2.3.4", ":::"}},
+	"date":      {{"2024-02-29", "1999-12-31"}, {"2024-13-01", "24-02-29"}},
+	"date-time": {{"2024-02-29T12:30:00Z"}, {"2024-02-29", "2024-02-29T25:00:00Z"}},
+	"time":      {{"12:30:00Z"}, {"25:00:00", "noon"}},
+	"uri":       {{"https://example.com/a?b=c"}, {"://x", "not a uri"}},
+}
+
+var formatNames []string
+var poolDropped int
+
+func formatSchema(name string) core.ZodSchema {
+	sch, err := lib.NewCompiler().Compile([]byte(`{"type":"string","format":` + jstr(name) + `}`))
+	if err != nil {
 		return nil
 	}
-	v := int64(lo + g.r.Intn(n))
-	return &v
+	z, err := gozod.FromJSONSchema(sch)
+	if err != nil {
+		return nil
+	}
+	return z
 }
 
-func (g *gen) schema(d int) *J0 {
-	k := g.r.Intn(12)
-	if d <= 0 && k >= 8 {
-		k = g.r.Intn(8)
-	}
-	switch k {
-	case 0, 1:
-		return &J0{K: "str", Mn: g.opt(0, 4), Mx: g.opt(1, 5)}
-	case 2, 3:
-		return &J0{K: "num", Mn: g.opt(-8, 20), Mx: g.opt(0, 24)}
-	case 4:
-		return &J0{K: "int", Mn: g.opt(-2, 5), Mx: g.opt(1, 6)}
-	case 5:
-		return &J0{K: "bool"}
-	case 6:
-		return &J0{K: "null"}
-	case 7:
-		return &J0{K: "any"}
-	case 8, 9:
-		return &J0{K: "arr", A: g.schema(d - 1), Mn: g.opt(0, 3), Mx: g.opt(1, 4)}
-	case 10:
-		return &J0{K: "anyOf", A: g.schema(d - 1), B: g.schema(d - 1)}
-	default:
-		return &J0{K: "oneOf", A: g.schema(d - 1), B: g.schema(d - 1)}
-	}
-}
-
-// instances as (op text, JSON text)
-type inst struct{ op, js string }
-
-func str(n int64, c string) inst {
-	if n < 0 {
-		n = 0
-	}
-	s := strings.Repeat(c, int(n))
-	var cps []string
-	for _, r := range s {
-		cps = append(cps, strconv.Itoa(int(r)))
-	}
-	b, _ := json.Marshal(s)
-	return inst{"s:" + strings.Join(cps, "."), string(b)}
-}
-func num(q int64) inst { return inst{"q" + strconv.FormatInt(q, 10), qText(q)} }
-func arr(xs ...inst) inst {
-	ops, jss := []string{}, []string{}
-	for _, x := range xs {
-		ops = append(ops, x.op)
-		jss = append(jss, x.js)
-	}
-	op := "( a"
-	if len(ops) > 0 {
-		op += " " + strings.Join(ops, " ")
-	}
-	return inst{op + " )", "[" + strings.Join(jss, ",") + "]"}
-}
-
-var basics = []inst{{"n", "null"}, {"t", "true"}, {"f", "false"}}
-
-func (g *gen) cands(j *J0) []inst {
-	var out []inst
-	b := func(p *int64, f func(v int64)) {
-		if p != nil {
-			f(*p - 1)
-			f(*p)
-			f(*p + 1)
+// checkPool keeps only samples on which gozod's dedicated schema and the validator (format assertion on) agree with
+// the pool's label, so that format cases measure the converter and not the recognisers (C20's business).
+func checkPool() {
+	for _, name := range []string{"email", "uuid", "ipv4", "ipv6", "date", "date-time", "time", "uri"} {
+		z := formatSchema(name)
+		comp := lib.NewCompiler()
+		comp.SetAssertFormat(true)
+		v, err := comp.Compile([]byte(`{"type":"string","format":` + jstr(name) + `}`))
+		if z == nil || err != nil {
+			continue
 		}
-	}
-	switch j.K {
-	case "str":
-		out = append(out, str(2, "m"))
-		b(j.Mn, func(v int64) { out = append(out, str(v, "m")) })
-		b(j.Mx, func(v int64) { out = append(out, str(v, "m")) })
-		if j.Mn != nil {
-			out = append(out, str(*j.Mn, "é"))
-		}
-		out = append(out, num(4), basics[0])
-	case "num":
-		out = append(out, num(6))
-		b(j.Mn, func(v int64) { out = append(out, num(v)) })
-		b(j.Mx, func(v int64) { out = append(out, num(v)) })
-		out = append(out, str(1, "m"), basics[0])
-	case "int":
-		out = append(out, num(4), num(6), num(0))
-		b(j.Mn, func(v int64) { out = append(out, num(4*v)) })
-		b(j.Mx, func(v int64) { out = append(out, num(4*v)) })
-		out = append(out, str(1, "m"), basics[0])
-	case "bool", "null", "any":
-		out = append(out, basics...)
-		out = append(out, num(4), str(1, "x"), arr())
-	case "arr":
-		ec := g.cands(j.A)
-		rep := func(n int64) inst {
-			var xs []inst
-			for i := int64(0); i < n; i++ {
-				xs = append(xs, ec[0])
-			}
-			return arr(xs...)
-		}
-		out = append(out, rep(1), rep(0), rep(2))
-		b(j.Mn, func(v int64) { out = append(out, rep(v)) })
-		b(j.Mx, func(v int64) { out = append(out, rep(v)) })
-		for i, c := range ec {
-			if i > 0 && i < 6 {
-				out = append(out, arr(c), arr(ec[0], c))
-			}
-		}
-		out = append(out, basics[0], num(4))
-	default:
-		for _, m := range []*J0{j.A, j.B} {
-			for i, c := range g.cands(m) {
-				if i < 8 {
-					out = append(out, c)
+		var kept [2][]string
+		for side := 0; side < 2; side++ {
+			for _, s := range formatPool[name][side] {
+				_, perr := z.ParseAny(s)
+				vv := v.ValidateJSON([]byte(jstr(s))).IsValid()
+				if (perr == nil) == (side == 0) && vv == (side == 0) {
+					kept[side] = append(kept[side], s)
+				} else {
+					poolDropped++
 				}
 			}
 		}
-		out = append(out, basics...)
+		if len(kept[0]) > 0 && len(kept[1]) > 0 {
+			formatPool[name] = kept
+			formatNames = append(formatNames, name)
+		}
+	}
+}
+
+// ---------------------------------------------------------------- generator
+
+type gen struct{ r *hx.Rng }
+
+var words = []string{"a", "b", "ab", "x.y", "zz", "A"}
+var keys = []string{"a", "b", "c"}
+
+func kwN(name string, n int64) KW { return KW{Name: name, N: n} }
+func kwT(t string) KW             { return KW{Name: "type", Strs: []string{t}} }
+func node(kws ...KW) *D           { return &D{Kws: kws} }
+func bschema(b bool) *D           { return &D{Bool: &b} }
+
+func (g *gen) prim() *J {
+	switch g.r.Intn(8) {
+	case 0, 1, 2:
+		return jStr(hx.Pick(g.r, words))
+	case 3, 4:
+		return jInt(int64(g.r.Intn(4)))
+	case 5:
+		return jQ(int64(2 + 4*g.r.Intn(3)))
+	case 6:
+		return jBool(g.r.Bool())
+	default:
+		return jNull()
+	}
+}
+
+func (g *gen) stringKws() []KW {
+	var ks []KW
+	if g.r.Chance(50) {
+		ks = append(ks, kwN("minLength", int64(g.r.Intn(4))))
+	}
+	if g.r.Chance(50) {
+		ks = append(ks, kwN("maxLength", int64(1+g.r.Intn(5))))
+	}
+	if g.r.Chance(25) {
+		k := hx.Pick(g.r, []string{"pre", "suf", "has", "noUp", "noLow"})
+		ks = append(ks, KW{Name: "pattern", Pat: [2]string{k, hx.Pick(g.r, words)}})
+	}
+	if g.r.Chance(15) && len(formatNames) > 0 {
+		name := hx.Pick(g.r, formatNames)
+		ks = append(ks, KW{Name: "format", Strs: append([]string{name}, formatPool[name][0]...)})
+	}
+	return ks
+}
+
+func (g *gen) numberKws(integer bool) []KW {
+	var ks []KW
+	v := func() int64 {
+		q := int64(g.r.Intn(25)) - 8
+		if integer && g.r.Chance(80) {
+			q = q / 4 * 4
+		}
+		return q
+	}
+	if g.r.Chance(45) {
+		ks = append(ks, kwN("minimum", v()))
+	}
+	if g.r.Chance(45) {
+		ks = append(ks, kwN("maximum", v()+8))
+	}
+	if g.r.Chance(20) {
+		ks = append(ks, kwN("exclusiveMinimum", v()))
+	}
+	if g.r.Chance(20) {
+		ks = append(ks, kwN("exclusiveMaximum", v()+8))
+	}
+	// both bound forms on one side: equal values, or one looser / tighter than the other
+	if g.r.Chance(18) {
+		b := v()
+		d := hx.Pick(g.r, []int64{0, 0, 0, -4, 4, 1})
+		if g.r.Bool() {
+			ks = append(ks, kwN("minimum", b), kwN("exclusiveMinimum", b+d))
+		} else {
+			ks = append(ks, kwN("maximum", b+8), kwN("exclusiveMaximum", b+8+d))
+		}
+		ks = dedupKwsFirstLast(ks)
+	}
+	if g.r.Chance(20) {
+		m := int64(1 + g.r.Intn(8))
+		if integer {
+			m = 4 * int64(1+g.r.Intn(3))
+		}
+		ks = append(ks, kwN("multipleOf", m))
+	}
+	return ks
+}
+
+func (g *gen) arrayKws(d int) []KW {
+	var ks []KW
+	if g.r.Chance(30) {
+		n := 1 + g.r.Intn(3)
+		var subs []*D
+		for i := 0; i < n; i++ {
+			subs = append(subs, g.doc(d-1))
+		}
+		ks = append(ks, KW{Name: "prefixItems", Subs: subs})
+	}
+	if g.r.Chance(65) {
+		ks = append(ks, KW{Name: "items", Sub: g.doc(d - 1)})
+	}
+	if g.r.Chance(35) {
+		ks = append(ks, kwN("minItems", int64(g.r.Intn(3))))
+	}
+	if g.r.Chance(35) {
+		ks = append(ks, kwN("maxItems", int64(1+g.r.Intn(3))))
+	}
+	return ks
+}
+
+func (g *gen) objectKws(d int) []KW {
+	var ks []KW
+	var names []string
+	if g.r.Chance(75) {
+		n := 1 + g.r.Intn(3)
+		var ps []Prop
+		for i := 0; i < n; i++ {
+			ps = append(ps, Prop{keys[i], g.doc(d - 1)})
+			names = append(names, keys[i])
+		}
+		ks = append(ks, KW{Name: "properties", Props: ps})
+	}
+	if g.r.Chance(70) {
+		var req []string
+		for _, n := range names {
+			if g.r.Chance(70) {
+				req = append(req, n)
+			}
+		}
+		if g.r.Chance(8) {
+			req = append(req, "q")
+		}
+		ks = append(ks, KW{Name: "required", Strs: req})
+	}
+	switch g.r.Intn(6) {
+	case 0, 1:
+		ks = append(ks, KW{Name: "additionalProperties", Sub: bschema(false)})
+	case 2:
+		ks = append(ks, KW{Name: "additionalProperties", Sub: bschema(true)})
+	case 3:
+		ks = append(ks, KW{Name: "additionalProperties", Sub: g.doc(d - 1)})
+	}
+	return ks
+}
+
+func (g *gen) typed(t string, d int) []KW {
+	switch t {
+	case "string":
+		return g.stringKws()
+	case "number":
+		return g.numberKws(false)
+	case "integer":
+		return g.numberKws(true)
+	case "array":
+		if d > 0 {
+			return g.arrayKws(d)
+		}
+	case "object":
+		if d > 0 {
+			return g.objectKws(d)
+		}
+	}
+	return nil
+}
+
+var allTypes = []string{"string", "number", "integer", "boolean", "null", "array", "object"}
+
+func (g *gen) members(d, n int) []*D {
+	var ms []*D
+	for i := 0; i < n; i++ {
+		ms = append(ms, g.doc(d-1))
+	}
+	return ms
+}
+
+func (g *gen) doc(d int) *D {
+	k := g.r.Intn(100)
+	var out *D
+	switch {
+	case k < 3:
+		return bschema(g.r.Chance(70))
+	case k < 7:
+		out = node() // no keywords
+	case k < 55 || d <= 0:
+		ts := []string{"string", "string", "number", "number", "integer", "boolean", "null", "array", "array", "object", "object", "object"}
+		t := hx.Pick(g.r, ts)
+		out = node(append([]KW{kwT(t)}, g.typed(t, d)...)...)
+	case k < 62:
+		n := 2 + g.r.Intn(2)
+		seen := map[string]bool{}
+		var ts []string
+		for len(ts) < n {
+			t := hx.Pick(g.r, allTypes)
+			if !seen[t] {
+				seen[t] = true
+				ts = append(ts, t)
+			}
+		}
+		kws := []KW{{Name: "types", Strs: ts}}
+		for _, t := range ts {
+			if g.r.Chance(50) {
+				kws = append(kws, g.typed(t, d)...)
+			}
+		}
+		out = node(dedupKws(kws)...)
+	case k < 68:
+		out = node(KW{Name: "const", Prims: []*J{g.prim()}})
+	case k < 76:
+		n := 1 + g.r.Intn(3)
+		var ps []*J
+		allStr := g.r.Chance(50)
+		for i := 0; i < n; i++ {
+			p := g.prim()
+			if allStr {
+				p = jStr(hx.Pick(g.r, words))
+			}
+			ps = append(ps, p)
+		}
+		out = node(KW{Name: "enum", Prims: ps})
+	case k < 83:
+		out = node(KW{Name: "anyOf", Subs: g.members(d, 1+g.r.Intn(3))})
+	case k < 88:
+		out = node(KW{Name: "oneOf", Subs: g.members(d, 1+g.r.Intn(3))})
+	case k < 94:
+		out = node(KW{Name: "allOf", Subs: g.members(d, 1+g.r.Intn(3))})
+	case k < 98:
+		out = node(KW{Name: "ref", Sub: g.doc(d - 1)})
+	default:
+		out = node(kwT("string"), KW{Name: "other", Strs: []string{hx.Pick(g.r, otherNames)}})
+	}
+	// sibling keywords next to composition / const / enum / ref / a type (class c), and stray keywords
+	if g.r.Chance(14) && out.Bool == nil {
+		t := hx.Pick(g.r, []string{"string", "number", "array", "object"})
+		extra := g.typed(t, d)
+		if g.r.Chance(60) && out.get("type") == nil && out.get("types") == nil {
+			extra = append([]KW{kwT(t)}, extra...)
+		}
+		out.Kws = dedupKws(append(out.Kws, extra...))
+	}
+	if g.r.Chance(3) && out.Bool == nil {
+		out.Kws = dedupKws(append(out.Kws, KW{Name: "other", Strs: []string{hx.Pick(g.r, otherNames)}}))
 	}
 	return out
 }
 
-func b01(b bool) string { return hx.B01(b) }
+// dedupKwsFirstLast keeps the LAST occurrence of each keyword (the deliberately paired bounds win).
+func dedupKwsFirstLast(ks []KW) []KW {
+	seen := map[string]bool{}
+	var rev []KW
+	for i := len(ks) - 1; i >= 0; i-- {
+		if !seen[ks[i].Name] {
+			seen[ks[i].Name] = true
+			rev = append(rev, ks[i])
+		}
+	}
+	for i, j := 0, len(rev)-1; i < j; i, j = i+1, j-1 {
+		rev[i], rev[j] = rev[j], rev[i]
+	}
+	return rev
+}
 
-// the documented keyword set (properties.jsonl C11 quantifier; docs/json-schema.md "Supported Conversions")
+func dedupKws(ks []KW) []KW {
+	seen := map[string]bool{}
+	var out []KW
+	for _, k := range ks {
+		n := k.Name
+		if n == "types" {
+			n = "type"
+		}
+		if n == "other" {
+			n = "other:" + k.Strs[0]
+		}
+		if seen[n] {
+			continue
+		}
+		seen[n] = true
+		out = append(out, k)
+	}
+	return out
+}
+
+// ---------------------------------------------------------------- instances
+
+func strOfLen(n int64, c string) *J {
+	if n < 0 {
+		n = 0
+	}
+	return jStr(strings.Repeat(c, int(n)))
+}
+
+func (g *gen) cands(d *D, depth int) []*J {
+	generic := []*J{jNull(), jBool(true), jInt(1), jQ(6), jStr("m"), jArr(), jObj()}
+	if d.Bool != nil {
+		return generic
+	}
+	var out []*J
+	around := func(n int64, f func(int64) *J) { out = append(out, f(n), f(n-1), f(n+1)) }
+	pre, suf := "", ""
+	for _, k := range d.Kws {
+		switch k.Name {
+		case "pattern":
+			switch k.Pat[0] {
+			case "pre":
+				pre = k.Pat[1]
+			case "suf":
+				suf = k.Pat[1]
+			case "has":
+				pre = k.Pat[1]
+			}
+		}
+	}
+	mk := func(n int64) *J {
+		k := int(n) - len(pre) - len(suf)
+		if k < 0 {
+			k = 0
+		}
+		return jStr(pre + strings.Repeat("m", k) + suf)
+	}
+	for _, k := range d.Kws {
+		switch k.Name {
+		case "minLength", "maxLength":
+			around(k.N, mk)
+			out = append(out, strOfLen(k.N, "é"), strOfLen((k.N+1)/2, "é"))
+		case "pattern":
+			out = append(out, mk(3), jStr("q"+pre+suf+"Q"), jStr("MM"), jStr("mm"))
+		case "format":
+			if p, ok := formatPool[k.Strs[0]]; ok {
+				for _, s := range append(append([]string{}, p[0]...), p[1]...) {
+					out = append(out, jStr(s))
+				}
+			}
+		case "minimum", "maximum", "exclusiveMinimum", "exclusiveMaximum":
+			out = append(out, jQ(k.N), jQ(k.N-1), jQ(k.N+1), jQ(k.N/4*4), jQ(k.N/4*4+4), jQ(k.N/4*4-4))
+		case "multipleOf":
+			out = append(out, jQ(k.N), jQ(2*k.N), jQ(k.N+1), jQ(0))
+		case "const", "enum":
+			out = append(out, k.Prims...)
+			out = append(out, jStr("nope"), jInt(7))
+		case "items", "prefixItems", "minItems", "maxItems":
+			// handled below (arrays are built once)
+		case "anyOf", "oneOf", "allOf":
+			for _, m := range k.Subs {
+				for i, c := range g.cands(m, depth+1) {
+					if i < 9 {
+						out = append(out, c)
+					}
+				}
+			}
+		case "ref", "not":
+			for i, c := range g.cands(k.Sub, depth+1) {
+				if i < 12 {
+					out = append(out, c)
+				}
+			}
+		}
+	}
+	// arrays
+	items, prefix := d.get("items"), d.get("prefixItems")
+	if items != nil || prefix != nil || d.get("minItems") != nil || d.get("maxItems") != nil {
+		var pc [][]*J
+		if prefix != nil {
+			for _, m := range prefix.Subs {
+				pc = append(pc, g.cands(m, depth+1))
+			}
+		}
+		rc := []*J{jInt(1), jStr("m"), jNull()}
+		if items != nil {
+			rc = g.cands(items.Sub, depth+1)
+		}
+		build := func(n int) *J {
+			var xs []*J
+			for i := 0; i < n; i++ {
+				if i < len(pc) {
+					xs = append(xs, pc[i][0])
+				} else {
+					xs = append(xs, rc[0])
+				}
+			}
+			return jArr(xs...)
+		}
+		for n := 0; n <= len(pc)+2; n++ {
+			out = append(out, build(n))
+		}
+		for _, name := range []string{"minItems", "maxItems"} {
+			if k := d.get(name); k != nil {
+				out = append(out, build(int(k.N)), build(int(k.N)+1))
+				if k.N > 0 {
+					out = append(out, build(int(k.N)-1))
+				}
+			}
+		}
+		for i := range pc {
+			for j, c := range pc[i] {
+				if j > 0 && j < 4 {
+					b := build(len(pc))
+					b.A[i] = c
+					out = append(out, b)
+				}
+			}
+		}
+		for j, c := range rc {
+			if j > 0 && j < 5 {
+				b := build(len(pc) + 1)
+				b.A[len(pc)] = c
+				out = append(out, b)
+			}
+		}
+	}
+	// objects
+	props, req, addl := d.get("properties"), d.get("required"), d.get("additionalProperties")
+	if props != nil || req != nil || addl != nil {
+		base := jObj()
+		if props != nil {
+			for _, p := range props.Props {
+				base = base.with(p.K, g.cands(p.D, depth+1)[0])
+			}
+		}
+		if req != nil {
+			for _, k := range req.Strs {
+				if base.get(k) == nil {
+					base = base.with(k, jInt(1))
+				}
+			}
+		}
+		out = append(out, base, jObj())
+		for _, k := range base.Ks {
+			out = append(out, base.without(k), base.without(k).with(k, jNull()))
+		}
+		if props != nil {
+			for _, p := range props.Props {
+				for j, c := range g.cands(p.D, depth+1) {
+					if j > 0 && j < 5 {
+						out = append(out, base.without(p.K).with(p.K, c))
+					}
+				}
+			}
+		}
+		out = append(out, base.with("zz", jInt(1)), base.with("zz", jStr("x")))
+		if addl != nil {
+			for j, c := range g.cands(addl.Sub, depth+1) {
+				if j < 4 {
+					out = append(out, base.with("zz", c), jObj().with("zz", c))
+				}
+			}
+		}
+	}
+	if len(out) == 0 {
+		out = append(out, jStr("mm"), jQ(2))
+	}
+	return append(out, generic...)
+}
+
+// ---------------------------------------------------------------- strict-mode keyword table
+
 var documented = map[string]bool{"type": true, "minLength": true, "maxLength": true, "pattern": true, "minimum": true, "maximum": true,
 	"exclusiveMinimum": true, "exclusiveMaximum": true, "multipleOf": true, "items": true, "prefixItems": true, "minItems": true,
 	"maxItems": true, "properties": true, "required": true, "additionalProperties": true, "const": true, "enum": true,
@@ -261,6 +786,81 @@ var kwSamples = [][2]string{
 	{"minProperties", `1`}, {"maxProperties", `2`}, {"contentEncoding", `"base64"`}, {"contentMediaType", `"application/json"`},
 }
 
+func b01(b bool) string { return hx.B01(b) }
+
+func outcome(sch *lib.Schema, strict bool) (string, core.ZodSchema) {
+	var z core.ZodSchema
+	var err error
+	pm := hx.Safely(func() { z, err = gozod.FromJSONSchema(sch, gozod.FromJSONSchemaOptions{StrictMode: strict}) })
+	switch {
+	case pm != "":
+		return "panic", nil
+	case err != nil:
+		return "error", nil
+	}
+	return "ok", z
+}
+
+func hasKnownFormat(d *D) bool {
+	if d == nil || d.Bool != nil {
+		return false
+	}
+	for _, k := range d.Kws {
+		if k.Name == "format" {
+			if _, ok := formatPool[k.Strs[0]]; ok {
+				return true
+			}
+		}
+		if hasKnownFormat(k.Sub) {
+			return true
+		}
+		for _, s := range k.Subs {
+			if hasKnownFormat(s) {
+				return true
+			}
+		}
+		for _, p := range k.Props {
+			if hasKnownFormat(p.D) {
+				return true
+			}
+		}
+	}
+	return false
+}
+
+func corpus() []*D {
+	str := func(ks ...KW) *D { return node(append([]KW{kwT("string")}, ks...)...) }
+	null := node(kwT("null"))
+	p := func(k string, d *D) Prop { return Prop{k, d} }
+	return []*D{
+		node(kwT("integer")), // (a)
+		node(KW{Name: "enum", Prims: []*J{jStr("a"), jInt(1), jNull(), jBool(true)}}), // (b)
+		node(KW{Name: "const", Prims: []*J{jNull()}}),
+		str(KW{Name: "allOf", Subs: []*D{node(kwN("minLength", 2))}}),                                  // (c)
+		node(kwN("minLength", 3), KW{Name: "anyOf", Subs: []*D{str(), node(kwT("number"))}}),           // (c)
+		str(kwN("minLength", 30), KW{Name: "format", Strs: append([]string{"email"}, formatPool["email"][0]...)}), // (c)
+		node(KW{Name: "types", Strs: []string{"string", "integer"}}, kwN("minimum", 8)),               // (c)
+		node(kwT("array"), KW{Name: "prefixItems", Subs: []*D{str(), node(kwT("number"))}}),            // (d)
+		node(kwT("object"), KW{Name: "properties", Props: []Prop{p("a", str())}}, KW{Name: "additionalProperties", Sub: node(kwT("number"))}), // (e)
+		node(KW{Name: "types", Strs: []string{"string", "null"}}),                                      // (f)
+		node(KW{Name: "anyOf", Subs: []*D{str(), null}}),
+		str(kwN("minLength", 2), kwN("maxLength", 3)), // (h)
+		node(kwT("object"), KW{Name: "required", Strs: []string{"a"}}),
+		node(kwT("object"), KW{Name: "properties", Props: []Prop{p("a", node(KW{Name: "enum", Prims: []*J{jStr("x")}})), p("b", node())}}),
+		node(KW{Name: "ref", Sub: str()}, kwN("minLength", 3)),
+		node(kwN("minLength", 2)),
+		node(kwT("object"), KW{Name: "properties", Props: []Prop{p("a", str())}}, KW{Name: "required", Strs: []string{"a"}}),
+		node(kwT("number"), kwN("multipleOf", 2), kwN("exclusiveMinimum", 0)),
+		node(kwT("number"), kwN("minimum", 8), kwN("exclusiveMinimum", 8)),
+		node(kwT("number"), kwN("maximum", 8), kwN("exclusiveMaximum", 8)),
+		node(kwT("number"), kwN("minimum", 8), kwN("exclusiveMinimum", 4)),
+		node(kwT("number"), kwN("minimum", 4), kwN("exclusiveMinimum", 8)),
+		node(kwT("number"), kwN("maximum", 8), kwN("exclusiveMaximum", 12), kwN("minimum", 0), kwN("exclusiveMinimum", 0)),
+		node(kwT("integer"), kwN("minimum", 8), kwN("exclusiveMinimum", 8)),
+		node(kwT("integer"), kwN("maximum", 8), kwN("exclusiveMaximum", 8)),
+	}
+}
+
 func main() {
 	cfg := hx.ParseFlags()
 	out, err := hx.NewOut(cfg.OutDir)
@@ -268,84 +868,92 @@ func main() {
 		fmt.Fprintln(os.Stderr, err)
 		os.Exit(3)
 	}
-	// strict-mode keyword table
+	checkPool()
 	for _, ks := range kwSamples {
 		doc := `{"` + ks[0] + `":` + ks[1] + `}`
 		obs := "compile-error"
 		if sch, err := lib.NewCompiler().Compile([]byte(doc)); err == nil {
-			var ferr error
-			pm := hx.Safely(func() { _, ferr = gozod.FromJSONSchema(sch, gozod.FromJSONSchemaOptions{StrictMode: true}) })
-			obs = b01(documented[ks[0]]) + " " + b01(ferr != nil || pm != "")
+			o, _ := outcome(sch, true)
+			obs = b01(documented[ks[0]]) + " " + b01(o != "ok")
 		}
 		out.Emit("c11 kw "+ks[0], obs)
 	}
 	g := &gen{r: hx.NewRng(cfg.Seed)}
-	n := 500
+	n := 650
 	if cfg.Thorough() {
-		n = 8000
+		n = 9000
 	}
-	null := &J0{K: "null"}
-	schemas := []*J0{{K: "int"}, {K: "anyOf", A: &J0{K: "str"}, B: null}, {K: "str", Mn: new(int64(2)), Mx: new(int64(3))},
-		{K: "arr", A: &J0{K: "int"}}, {K: "oneOf", A: &J0{K: "num"}, B: null}}
+	docs := corpus()
 	for i := 0; i < n; i++ {
-		schemas = append(schemas, g.schema(2))
+		docs = append(docs, g.doc(2))
 	}
 	seen := map[string]bool{}
-	panics := 0
-	for _, j := range schemas {
-		text := j.String()
+	panics, skipped := 0, 0
+	for _, d := range docs {
+		text := d.String()
 		if seen[text] {
 			continue
 		}
 		seen[text] = true
-		out.Count("schema:" + j.K)
-		doc := j.Doc()
-		sch, err := lib.NewCompiler().Compile([]byte(doc))
+		doc := d.Doc()
+		comp := lib.NewCompiler()
+		comp.SetAssertFormat(true)
+		sch, err := comp.Compile([]byte(doc))
 		if err != nil {
-			out.Emit("c11 doc "+text, "compile-error")
+			skipped++
 			continue
 		}
-		var zs core.ZodSchema
+		for _, k := range d.Kws {
+			out.Count("kw:" + k.Name)
+		}
+		o1, z := outcome(sch, false)
+		o2, _ := outcome(sch, true)
+		out.Count("conv:" + o1 + "/" + o2)
+		out.Emit("c11 conv "+text, o1+" "+o2)
+		if z == nil {
+			continue
+		}
 		var rt *lib.Schema
-		msg := hx.Safely(func() {
-			z, err := gozod.FromJSONSchema(sch)
-			if err != nil {
-				return
-			}
-			zs = z
+		_ = hx.Safely(func() {
 			if back, err := gozod.ToJSONSchema(z); err == nil {
 				if raw, err := json.Marshal(back); err == nil {
-					rt, _ = lib.NewCompiler().Compile(raw)
+					rc := lib.NewCompiler()
+					rc.SetAssertFormat(true)
+					rt, _ = rc.Compile(raw)
 				}
 			}
 		})
-		if msg != "" || zs == nil {
-			out.Emit("c11 doc "+text, "convert-failed")
-			continue
-		}
 		seenI := map[string]bool{}
-		for _, in := range g.cands(j) {
-			if seenI[in.op] {
+		cs := g.cands(d, 0)
+		if len(cs) > 70 {
+			cs = cs[:70]
+		}
+		for _, in := range cs {
+			it := in.String()
+			if seenI[it] {
 				continue
 			}
-			seenI[in.op] = true
+			seenI[it] = true
+			js := in.JSON()
 			var v any
-			_ = json.Unmarshal([]byte(in.js), &v)
+			_ = json.Unmarshal([]byte(js), &v)
 			var perr error
-			pm := hx.Safely(func() { _, perr = zs.ParseAny(v) })
+			pm := hx.Safely(func() { _, perr = z.ParseAny(v) })
 			if pm != "" {
 				panics++
 			}
 			p := b01(pm == "" && perr == nil)
-			vv := b01(sch.ValidateJSON([]byte(in.js)).IsValid())
+			vv := b01(sch.ValidateJSON([]byte(js)).IsValid())
 			r := "-"
-			if rt != nil {
-				r = b01(rt.ValidateJSON([]byte(in.js)).IsValid())
+			if hasKnownFormat(d) {
+				r = "~" // ToJSONSchema of the dedicated format schemas is outside the model (C07 limits)
+			} else if rt != nil {
+				r = b01(rt.ValidateJSON([]byte(js)).IsValid())
 			}
 			obs := p + " " + vv + " " + r
 			out.Count("verdict:" + obs)
-			out.Emit("c11 inst "+text+" "+in.op, obs)
+			out.Emit("c11 inst "+text+" "+it, obs)
 		}
 	}
-	_ = out.Close(map[string]any{"schemas": len(seen), "parse_panics": panics})
+	_ = out.Close(map[string]any{"docs": len(seen), "parse_panics": panics, "uncompilable_docs_skipped": skipped, "format_pool_samples_dropped": poolDropped})
 }
